@@ -145,18 +145,20 @@ def run_property(prop, tier, seed, impl="py", only=None):
         uses_of.setdefault(hid, set()).update(res.get("contract_uses", {}).keys())
         if first_refutation(res) is not None:
             tainted_fn.update(hs[hid].body_of)
-    changed = True
-    tainted_h = set()
-    while changed:
-        changed = False
-        for hid, uses in uses_of.items():
-            if hid not in tainted_h and uses & tainted_fn:
-                tainted_h.add(hid)
-                new = set(hs[hid].body_of) - tainted_fn
-                if new:
-                    tainted_fn.update(new)
-                changed = True
-    rep.tainted = tainted_h
+    def taint_closure():
+        changed = True
+        tainted_h = set()
+        while changed:
+            changed = False
+            for hid, uses in uses_of.items():
+                if hid not in tainted_h and uses & tainted_fn:
+                    tainted_h.add(hid)
+                    new = set(hs[hid].body_of) - tainted_fn
+                    if new:
+                        tainted_fn.update(new)
+                    changed = True
+        return tainted_h
+    rep.tainted = taint_closure()
 
     native_jobs = []   # (kind, hid, case, payload)
     empty_cases = {}
@@ -248,6 +250,15 @@ def run_property(prop, tier, seed, impl="py", only=None):
 
     with ThreadPoolExecutor(max_workers=16) as ex:
         native_results = list(ex.map(do_native, native_jobs))
+
+    # a body obligation that was undecided deductively and whose bounded stand-in fails natively breaks the
+    # callee's contract just like a refutation does: callers proved against it are consequences
+    n_t = len(tainted_fn)
+    for (kind, h, case, res, ref), path, r in native_results:
+        if kind == "standin" and r.get("fails"):
+            tainted_fn.update(h.body_of)
+    if len(tainted_fn) != n_t:
+        rep.tainted = taint_closure()
 
     for (kind, h, case, res, ref), path, r in native_results:
         cname = prove.case_name(case)
